@@ -15,7 +15,7 @@ RULE = ("seeded histories over 1-2 tokens with sessions in all five states (RO/R
         "position, create/generate with CKA_PRIVATE/CKA_TOKEN) using live handles, handles kept from before a logout, handles of the OTHER token's logged-in user "
         "(the only case where the per-call access check is the sole guard) and handles found by other sessions. Distinct+non-trivial: (session state, object "
         "private/token, entry point, live/stale handle, outcome class).")
-PROBES = ["default_privacy_checked", "neg_probe", "neg_probe_live_handle", "neg_code_checked", "pos_probe_ok", "ro_write_refused", "private_create_refused", "search_hides_private", "search_shows_private", "so_session_probe", "cross_token_probe", "stale_handle_probe", "output_scanned"]
+PROBES = ["faults_fired", "neg_probe_after_fault", "db_backend_runs", "default_privacy_checked", "neg_probe", "neg_probe_live_handle", "neg_code_checked", "pos_probe_ok", "ro_write_refused", "private_create_refused", "search_hides_private", "search_shows_private", "so_session_probe", "cross_token_probe", "stale_handle_probe", "output_scanned"]
 DEATH_IS_VIOLATION = ()
 
 ENTRY = ["getattr", "setattr", "copy", "destroy", "find", "encinit", "decinit", "signinit", "verifyinit", "digestkey", "wrap_wkey", "wrap_key", "unwrap", "derive_base", "derive_second", "derive_second", "create", "create_default", "create_default", "genkey", "genpair", "copy_priv"]
@@ -186,7 +186,18 @@ def gen(seed, tier, index):
     n = r.choice([10, 16, 24, 40]) if tier == "quick" else r.choice([20, 40, 80])
     for _ in range(n):
         g.step(W)
+    if index % 5 == 4:
+        # fault stratum: the privacy decision is READ from storage that can fail. One I/O error inside up to three calls that take an object handle, on the
+        # file store or (every other time) on the SQLite store: an object that cannot be read must not become a readable public one. Only "does not
+        # succeed" and "leaks nothing" are judged from the first fault on (a faulted call may fail with any code, an entitled call may fail too)
+        if index % 10 == 9: g.knobs["conf"]["objectstore.backend"] = "db"
+        cands = [i for i, op in enumerate(g.ops[0]) if op.get("f") and any(isinstance(op.get(k_), str) for k_ in ("o", "key", "wkey", "ukey", "base", "second"))]
+        if cands: g.extra["fault_candidates"] = sorted(r.sample(cands, min(len(cands), r.randint(1, 3)))); g.profile = "fault"
     return g.plan()
+
+def prepare(plan, z):
+    from gen import place_faults
+    return place_faults(plan, z, plan["seed"])
 
 def _v(cls, msg, **kw):
     d = {"class": cls, "msg": msg}; d.update(kw); return d
@@ -220,7 +231,12 @@ def check(plan, r):
                         vals.append(e[2])
                 secrets[op["out"]] = vals
     lastcreate = {}
+    fops = [e.get("op") for e in r.hist if e.get("e") == "fs" and e.get("fault") and isinstance(e.get("op"), int)]
+    ff = min(fops) if fops else None
+    if fops: st("faults_fired", len(fops))
+    if plan["knobs"].get("conf", {}).get("objectstore.backend") == "db": st("db_backend_runs")
     for tid, k, op, ret in hist.walk(plan, r):
+        faulted = ff is not None and k >= ff
         pid = pids[tid][k]; P = w.proc(pid)
         f = hist.opname(op); rv = ret.get("rv"); ok = rv == 0
         if op.get("omit_private") and op.get("out"): lastcreate[op["out"]] = rv
@@ -249,6 +265,7 @@ def check(plan, r):
                     if ok:
                         viols.append(_v("C01.private_access", "%s through a %s session succeeded on private object %s (as %s)%s" % (f, stn, ref, key, " [handle of the other token]" if cross else ""),
                                         call=f, op=k, state=stn, position=key, cross_token=cross))
+                    elif faulted: st("neg_probe_after_fault")
                     elif live and f not in ("C_GetAttributeValue", "C_DigestKey") and key != "second" and rv not in (K.CKR_USER_NOT_LOGGED_IN, K.CKR_SESSION_READ_ONLY, K.CKR_OPERATION_ACTIVE):
                         # the access matrix names the code; other failures may legitimately come first only for a few argument checks
                         st("neg_code_checked")
@@ -261,6 +278,7 @@ def check(plan, r):
                         for sv in secrets.get(ref, []):
                             if sv in hx:
                                 viols.append(_v("C01.value_leak", "%s through a %s session returned bytes of private object %s" % (f, stn, ref), call=f, op=k, state=stn))
+                elif faulted: pass
                 elif key == "o" and live and not cross and f == "C_GetAttributeValue" and (not o.private or user_sess):
                     # positive direction: an entitled session can read the label
                     if any(a[0] == K.CKA_LABEL and a[1] for a in op.get("want", [])) and len(op.get("want", [])) == 1:
@@ -320,7 +338,7 @@ def check(plan, r):
                     if privs: st("search_shows_private")
                     if not op.get("tmpl"):
                         miss = [o.ref for o in hidden if o.ref not in [x for x, _ in found] and o.ref not in tainted]
-                        if miss: viols.append(_v("C01.entitled_refused", "search in a %s session does not return private objects %s" % (stn, miss), call="C_FindObjects", op=k))
+                        if miss and not faulted: viols.append(_v("C01.entitled_refused", "search in a %s session does not return private objects %s" % (stn, miss), call="C_FindObjects", op=k))
         w.apply(pid, op, ret)
         if op.get("omit_private") and ok and op.get("out") in w.objs:
             # CKA_PRIVATE was left to the library: PKCS#11's defaults as SoftHSM implements them (public keys and certificates public, everything else private);
@@ -343,4 +361,4 @@ CLAIM = ("Seeded exploration: the real library runs inside the simulator while t
          "~25 entry points with live, stale, cross-token and foreign-found handles; every probe of a private object from a session that is not a user session must fail "
          "(with the access-matrix code where the handle is live), leak no registered value and yield no handle; token-object writes through RO sessions must fail; the positive "
          "direction is checked so that a library refusing everything is caught. Evidence, not proof.")
-NOTE = "Trusted: reference model; harness-known values (>= 12 bytes) for leak scanning. A second process without login is exercised in C15; faulted re-reads are not part of this check yet."
+NOTE = "Trusted: reference model; harness-known values (>= 12 bytes) for leak scanning. A second process without login is exercised in C15. Every fifth plan injects one I/O error into up to three calls that take an object handle (file store, and SQLite store every other time): from the first fault on only "does not succeed" and "leaks nothing" are judged."
